@@ -140,3 +140,12 @@ const ruleC19 = "orders of registering and completing up to 4 initializer names 
 func TestC19Init(t *testing.T) {
 	dbTest(t, "C19", "TestC19Init", ruleC19, profC19, Options{})
 }
+
+const ruleC10G = "the C08 histories (delete / re-insert / re-delete over few keys, iterators created, consumed and closed, the real graveyard worker parked between its lock-free scan and its write transaction while scanned keys are re-inserted, then released), judged for C10: every write transaction, iterator Close and collector round must be granted - a case that does not finish within 30 s of real time (virtual time cannot advance while a goroutine waits for a table lock) is a deadlock or a leaked table lock. Non-trivial = a collector round was released while iterators were open; distinct by case encoding."
+
+// TestC10Graveyard: creating/closing iterators and graveyard collection never
+// deadlock and never leave a table locked.
+func TestC10Graveyard(t *testing.T) {
+	p := profC08
+	dbTest(t, "C10", HangTest, ruleC10G, p, Options{})
+}
